@@ -205,6 +205,6 @@ int main(int argc, char** argv) {
   vh::Args args(argc, argv);
   C();
   if (args.has("record")) return vh::RunRecorder(args.get("trace"), args.get("out"), [&]() { return Record(args); });
-  vh::IsoOptions iso; iso.faultProperty = "C04"; iso.batch = 250; iso.watchdogSeconds = 45;   // the deep-nesting inputs are 0.5 MB each and go through ~70 calls
+  vh::IsoOptions iso; iso.faultProperty = "C04"; iso.batch = 250; iso.watchdogSeconds = 150;   // the deep-nesting inputs are 0.5 MB each and go through ~70 calls
   return vh::Main(argc, argv, Handle, true, iso);
 }
